@@ -21,6 +21,9 @@ type wfGen struct {
 	PreferFlows bool
 }
 
+// error flavours a scripted callback can fail with (see mkErr)
+var errFlavors = []int{1, 2, 3, 4, 7, 8}
+
 var prefixActions = []string{"a", "ab", "abc", "", "default"}
 
 func draw[T any](rt *rapid.T, g *rapid.Generator[T], label string) T { return g.Draw(rt, label) }
@@ -62,7 +65,7 @@ func uniform(rt *rapid.T, n int, label string) int {
 func (g wfGen) outcome(rt *rapid.T, p int, label string) Outcome {
 	o := Outcome{Pay: rapid.IntRange(0, numPayKinds-1).Draw(rt, label+".pay")}
 	if perMille(rt, p, label+".fail") {
-		o.Err = rapid.IntRange(1, 4).Draw(rt, label+".flavor")
+		o.Err = errFlavors[uniform(rt, len(errFlavors), label+".flavor")]
 	}
 	return o
 }
@@ -76,6 +79,7 @@ func (g wfGen) leaf(rt *rapid.T) *LeafSpec {
 	}
 	if l.Kind == KFunc {
 		l.Style = rapid.IntRange(0, numStyles-1).Draw(rt, "style")
+		l.ErrRes = rapid.Bool().Draw(rt, "errres")
 	}
 	maxN := g.MaxN
 	if maxN < 1 {
@@ -98,7 +102,7 @@ func (g wfGen) leaf(rt *rapid.T) *LeafSpec {
 			s.Fb.Err = 5
 		}
 		s.Post = g.outcome(rt, g.PErr, "post")
-		s.Post.Pay = 0
+		s.Post.Pay %= 2
 		s.Action = rapid.SampledFrom(g.Actions).Draw(rt, "action")
 		l.Visits = append(l.Visits, s)
 	}
